@@ -12,6 +12,8 @@ type Harness struct {
 	MaxInstr       int64            `json:"-"`
 	Expect         []string         `json:"-"` // reach markers that must be reached (vacuity guard)
 	Cross          bool             `json:"-"` // re-ask unsat verdicts to z3-new in the thorough tier
+	ThoroughOnly   bool             `json:"-"` // an additional parameter set explored in the thorough tier only
+	Label          string           `json:"-"` // distinguishes several entries of one harness function in the evidence
 }
 
 // Unit: a package under test with the harness files injected into it.
@@ -86,6 +88,7 @@ var checks = []Check{
 			Harness{Fn: "ZZC12Iter", Quick: p("K", 3), Thorough: p("K", 4), Expect: []string{"iter-ok", "witness:end"}},
 			Harness{Fn: "ZZC12Copies", Quick: p("K", 2), Thorough: p("K", 3), Expect: []string{"copies-ok", "witness:end"}},
 			Harness{Fn: "ZZC12Equal", Quick: p("K", 2), Thorough: p("K", 3), Expect: []string{"witness:end"}},
+			Harness{Fn: "ZZC12Literal", Expect: []string{"literal-ok", "witness:end"}},
 		)},
 		Assumptions: []string{
 			"keys are never inspected by the map code, so a small key alphabet stands for all keys (data independence: stated, not proved)",
@@ -106,6 +109,7 @@ var checks = []Check{
 			Harness{Fn: "ZZC13Outcome", Expect: []string{"exit", "panic", "test1", "test2", "test3", "testbad", "test-msg", "witness:end"}},
 			Harness{Fn: "ZZC13Hsl", Expect: []string{"hsl-ok", "hsl-err", "witness:end"}},
 			Harness{Fn: "ZZC13Len", Quick: p("N", 3), Thorough: p("N", 6), Expect: []string{"witness:end"}},
+			Harness{Fn: "ZZC13Strings", Expect: []string{"strings-ok", "witness:end"}},
 		), func() Unit {
 			u := evalUnit([]string{"evaluator/common.go", "evaluator/docs.go"},
 				Harness{Fn: "ZZC13DocExamples", Expect: []string{"doc-example", "witness:end"}})
